@@ -9,7 +9,6 @@ package main
 // (abstract value -> bytes) and projection (response -> abstract observation).
 
 import (
-	"bytes"
 	"crypto/rand"
 	"crypto/sha1"
 	"encoding/base64"
@@ -664,27 +663,37 @@ func (w *vpWorld) do(r vpReq) (out *vpResp) {
 	if r.RemoteAddr == "" {
 		r.RemoteAddr = "192.0.2.10:40000"
 	}
-	var body io.Reader
+	// The request is built by the same parser the HTTP server uses (http.ReadRequest on the raw
+	// bytes), so header-name canonicalisation, repeated headers and odd targets are handled exactly
+	// as for a request arriving on the wire.
+	var sb strings.Builder
+	target := r.Target
+	if target == "" {
+		target = "/"
+	}
+	sb.WriteString(r.Method + " " + target + " HTTP/1.1\r\n")
+	sb.WriteString("Host: " + r.Host + "\r\n")
+	for _, h := range r.Header {
+		sb.WriteString(h[0] + ": " + h[1] + "\r\n")
+	}
+	if r.Form {
+		sb.WriteString("Content-Type: application/x-www-form-urlencoded\r\n")
+	}
+	if r.Cookie != "" {
+		sb.WriteString("Cookie: " + r.Cookie + "\r\n")
+	}
 	if r.Body != "" {
-		body = strings.NewReader(r.Body)
+		sb.WriteString(fmt.Sprintf("Content-Length: %d\r\n", len(r.Body)))
 	}
-	req, err := vpNewRequest(r.Method, r.Target, body)
+	sb.WriteString("\r\n")
+	sb.WriteString(r.Body)
+	req, err := http.ReadRequest(bufioReader(sb.String()))
 	if err != nil {
-		return &vpResp{Status: -1, Panic: "", Header: http.Header{}, Body: []byte("vp: cannot build request: " + err.Error())}
+		return &vpResp{Status: -1, Header: http.Header{}, Body: []byte("vp: cannot build request: " + err.Error())}
 	}
-	req.Host = r.Host
 	req.RemoteAddr = r.RemoteAddr
 	if r.Scheme != "" {
 		req.URL.Scheme = r.Scheme
-	}
-	for _, h := range r.Header {
-		req.Header.Add(h[0], h[1])
-	}
-	if r.Form {
-		req.Header.Set("Content-Type", "application/x-www-form-urlencoded")
-	}
-	if r.Cookie != "" {
-		req.Header.Set("Cookie", r.Cookie)
 	}
 	before := w.upstreamTotal()
 	rec := httptest.NewRecorder()
@@ -721,31 +730,6 @@ func (w *vpWorld) lastUpstreamReq() *vpUpReq {
 		}
 	}
 	return best
-}
-
-// vpNewRequest builds a server-side request for an arbitrary request-target without panicking.
-func vpNewRequest(method, target string, body io.Reader) (*http.Request, error) {
-	if target == "" {
-		target = "/"
-	}
-	raw := method + " " + target + " HTTP/1.1\r\nHost: placeholder\r\n\r\n"
-	req, err := http.ReadRequest(bufioReader(raw))
-	if err != nil {
-		return nil, err
-	}
-	if body != nil {
-		switch v := body.(type) {
-		case *strings.Reader:
-			req.ContentLength = int64(v.Len())
-		case *bytes.Reader:
-			req.ContentLength = int64(v.Len())
-		}
-		req.Body = io.NopCloser(body)
-	} else {
-		req.Body = http.NoBody
-	}
-	req.Header = http.Header{}
-	return req, nil
 }
 
 // ---------------------------------------------------------------------------------------------
